@@ -6,6 +6,8 @@ use std::ops::Shr;
 
 #[allow(non_snake_case)]
 pub fn prefetch_read_NTA<T>(data: &[T], offset: usize) {
+    #[cfg(qwt_verif)]
+    let offset = crate::verif::buggify_offset(offset, data.len());
     let _p = data.as_ptr().wrapping_add(offset) as *const i8;
 
     #[cfg(all(feature = "prefetch", any(target_arch = "x86", target_arch = "x86_64")))]
